@@ -161,7 +161,9 @@ where
     out.o(&format!("o-iso {} {} {}", wraps_sx, gu.to_sx(), gw.to_sx()));
     // the C06 oracle on the wrapped walk: the inner actors were invoked exactly as the step relation says
     out.o(&format!("o-graph {} {} ({})", sxw, gw.to_sx_with_log(), gw.init_log.iter().map(|i| i.to_sx()).collect::<Vec<_>>().join(" ")));
-    out.stat(&format!("system-wraps-{}", wraps.join(",")).chars().take(40).collect::<String>());
+    let mut kinds: Vec<&str> = wraps.iter().map(|s| s.as_str()).collect();
+    kinds.sort(); kinds.dedup();
+    out.stat(&format!("system-adapters-{}", kinds.join("+")));
     out.stat_n("system-transitions", gw.transitions() as u64);
     out.stat_n("system-states", gw.states.len() as u64);
     let uses = |k: &str| spec.tables.iter().any(|t| t.all_cmds().any(|c| c.kind() == k));
